@@ -579,11 +579,14 @@ def will_be_fixed(spec):
     return spec['mode'] == 'full'
 
 
-def shape_text(arr, spec, fixed):
+def shape_text(arr, spec, fixed, caller=False):
+    """``caller``: as a caller has to declare the dummy in an interface body (where the routine's locals do not exist)"""
     rank = 2 if arr == 'y' else 1
     if spec['mode'] == 'explicit':
         return ['n', 'm'][:rank]
     if fixed and will_be_fixed(spec):
+        if caller and spec.get('bound') == 'local':
+            return ['n', 'm'][:rank]
         return [bound_name(arr, d, spec) for d in range(rank)]
     return [':'] * rank
 
@@ -631,10 +634,10 @@ def r_ubound_checks(r, rc, ind):
             rc.next_code += 1
 
 
-def decl_lines(r, fixed):
+def decl_lines(r, fixed, caller=False):
     """declarations of the array dummies in the routine's style"""
     intent = 'intent(inout)' if r['kind'] == 'sub' else 'intent(in)'
-    sh = {a: shape_text(a, r['ub'][a], fixed) for a in ('x', 'z', 'y')}
+    sh = {a: shape_text(a, r['ub'][a], fixed, caller) for a in ('x', 'z', 'y')}
 
     def ent(a):
         return f'{a}({", ".join(sh[a])})'
@@ -754,7 +757,7 @@ def render_driver(model, inps, fixed=False, extra=0):
         for r in need_if:
             L.append(f'    subroutine {r["name"]}(n, m, x, z, y, ires)')
             L.append('      integer, intent(in) :: n, m')
-            for ln in decl_lines(r, fixed):
+            for ln in decl_lines(r, fixed, caller=True):
                 L.append('      ' + ln)
             L.append('      integer, intent(inout) :: ires')
             L.append(f'    end subroutine {r["name"]}')
